@@ -11,6 +11,7 @@
 package main
 
 import (
+	"bytes"
 	"crypto/ed25519"
 	"crypto/rand"
 	"crypto/sha256"
@@ -48,6 +49,7 @@ type Node struct {
 	Name       string  `json:"name"`
 	Content    []byte  `json:"content,omitempty"`
 	Segs       []Seg   `json:"segs,omitempty"` // large files: the content is the expansion of the segments
+	expanded   []byte  // cache of the expansion
 	Unreadable bool    `json:"unreadable,omitempty"`
 	Target     string  `json:"target,omitempty"`
 	Children   []*Node `json:"children,omitempty"`
@@ -58,13 +60,19 @@ func (n *Node) data() []byte {
 	if len(n.Segs) == 0 {
 		return n.Content
 	}
-	var out []byte
+	if n.expanded != nil {
+		return n.expanded
+	}
+	total := 0
 	for _, sg := range n.Segs {
-		for i := 0; i < sg.Rep; i++ {
-			out = append(out, sg.B)
-		}
+		total += sg.Rep + len(sg.Lit)
+	}
+	out := make([]byte, 0, total)
+	for _, sg := range n.Segs {
+		out = append(out, bytes.Repeat([]byte{sg.B}, sg.Rep)...)
 		out = append(out, sg.Lit...)
 	}
+	n.expanded = out
 	return out
 }
 
@@ -229,6 +237,7 @@ type Input struct {
 	Follow   bool                         `json:"follow"`
 	Products map[string]map[string]string `json:"products,omitempty"` // match: link products as alg -> "alg:bytes" tags
 	Repeat   int                          `json:"repeat,omitempty"`   // extra runs of the implementation: the result must not depend on map order
+	Huge     bool                         `json:"huge,omitempty"`     // files of several MiB: implementation against the oracle only (no model evaluation)
 	Big      bool                         `json:"big,omitempty"`      // contains files whose model evaluation needs a deep stack
 }
 
@@ -248,7 +257,7 @@ func applyOps(t *Node, ops []Op) *Node {
 					panic("write over non-file")
 				}
 				c.Content = append([]byte(nil), op.Content...)
-				c.Segs = nil
+				c.Segs, c.expanded = nil, nil
 			} else {
 				dir.Children = append(dir.Children, &Node{Kind: "file", Name: name, Content: append([]byte(nil), op.Content...)})
 			}
@@ -625,6 +634,16 @@ func coqTaggedArtifacts(m map[string]map[string]string) string {
 		it = append(it, lib.CoqPair(lib.CoqStr(k), lib.CoqHashObj(m[k])))
 	}
 	return lib.CoqList(it, "str * hashobj")
+}
+
+// files of several MiB cannot be expanded by vm_compute in reasonable time; the
+// model (which is indifferent to the length of the byte list) is evaluated on
+// everything up to 300 KiB
+func modelTerm(in *Input) string {
+	if in.Huge {
+		return ""
+	}
+	return coqModel(in)
 }
 
 func coqModel(in *Input) string {
@@ -2119,6 +2138,47 @@ func genExclLinks(r *lib.Rng, fixed bool) (*Input, string) {
 	return in, "excl-links:" + in.Call
 }
 
+// ---- exclude patterns that look like .gitignore comments or carry blanks; taken literally as passed ----
+
+var litPatternSets = [][]string{
+	{"#*#"}, {"#main.c#"}, {"\\#x"}, {"cache "}, {" lead"}, {"cache"}, {"lead "}, {"\tt"}, {"t\t"}, {"#*#", "!#main.c#"},
+	{"\\!keep"}, {"#*"}, {" *"}, {"* "}, {"cache ", "#x"}, {"  #main.c#"}, {"#dir#/"}, {"!cache", "cache"}, {"cache", "!cache "},
+}
+
+func genLiteralPatterns(r *lib.Rng, fixed bool) (*Input, string) {
+	root := &Node{Kind: "dir"}
+	names := []string{"#main.c#", "#x", "main.c", "cache", "cache ", " lead", "lead", "\tt", "t\t", "!keep", "keep", "#dir#/f", "sub/#auto#", "sub/cache", "sub/cache /y", "x"}
+	for _, nm := range names {
+		if fixed || r.Chance(3, 4) {
+			addPath(root, nm, "c:"+nm)
+		}
+	}
+	addPath(root, "plain", "p")
+	root.sortRec()
+	in := &Input{Tree: root, Paths: []string{"."}, Algs: algChoices[r.Intn(7)], Excl: litPatternSets[r.Intn(len(litPatternSets))],
+		Norm: r.Bool(), Follow: r.Bool()}
+	pick := r.Intn(12)
+	if fixed {
+		in.Excl, pick = []string{"#*#", "cache "}, 9
+	}
+	routeFor(r, in, root, pick)
+	return in, "literal-patterns:" + in.Call
+}
+
+// ---- files of several MiB ----
+
+var hugeSizes = []int{8<<20 + 1, 9<<20 + 12345, 8 << 20, 16<<20 - 1}
+
+func genHuge(r *lib.Rng, size int, norm bool, algs []string) (*Input, string) {
+	tail := []byte(fmt.Sprintf("\r\nTAIL-%d\r", size))
+	mid := []byte("-middle\r\n-")
+	half := (size - len(tail) - len(mid)) / 2
+	segs := []Seg{{Rep: half, B: 'A', Lit: mid}, {Rep: size - len(tail) - len(mid) - half, B: 'B', Lit: tail}}
+	root := &Node{Kind: "dir", Children: []*Node{{Kind: "file", Name: "image.bin", Segs: segs}, {Kind: "file", Name: "small", Content: []byte("s")}}}
+	in := &Input{Call: "record", Tree: root, Paths: []string{"."}, Algs: algs, Norm: norm, Huge: true}
+	return in, fmt.Sprintf("hugefile-%d-norm-%v", size, norm)
+}
+
 func genRun(r *lib.Rng, call string) (*Input, string) {
 	budget := r.Range(4, 12)
 	root := genDir(r, "", 0, &budget)
@@ -2251,6 +2311,14 @@ func genCase(r *lib.Rng, i int) (*Input, string) {
 		return genHistory(r, []string{"rerecord", "run", "startstop", "rematch"}[i-6])
 	case i == 10 || i == 11:
 		return genOddNames(r, i-9)
+	case i == 14:
+		return genHuge(r, hugeSizes[0], false, []string{"sha256", "sha512"})
+	case i == 15:
+		return genHuge(r, hugeSizes[r.Intn(4)], r.Bool(), algChoices[r.Intn(7)])
+	case i >= 16 && i <= 21 && os.Getenv("VERIF_TIER") == "thorough":
+		return genHuge(r, hugeSizes[(i-16)%4], i >= 20, []string{"sha256", "sha384", "sha512"})
+	case i == 22 || (k >= 57 && k < 60):
+		return genLiteralPatterns(r, i == 22)
 	case i == 12 || (k >= 60 && k < 63):
 		return genToolNames(r, i == 12)
 	case i == 13 || (k >= 63 && k < 66):
@@ -2357,7 +2425,7 @@ func main() {
 				}
 			}
 			w.Put(lib.Case{Klass: klass, Input: lib.MustJSON(in), Impl: impl, Oracle: oracleOf(in, impl),
-				CoqModel: coqModel(in), Trivial: isTrivial(in, impl)})
+				CoqModel: modelTerm(in), Trivial: isTrivial(in, impl)})
 		}
 		w.Close()
 	case "replay":
